@@ -742,6 +742,17 @@ func (fr *frame) vspecIntrinsic(x *ssa.Call, name string, fn *ssa.Function, args
 		}
 		c.unsupported("fresh() of unsupported value at %s", pos)
 		return f.True(), true
+	case "PreExisting":
+		if v, ok := args[0].(*Term); ok {
+			ref := v
+			if v.sort == SSl {
+				ref = f.SlRef(v)
+			} else if v.sort == SIf {
+				ref = f.IfVal(v)
+			}
+			return f.Le(ref, c.alpha0), true
+		}
+		return f.True(), true
 	case "Extends":
 		a, b := args[0].(*Term), args[1].(*Term)
 		return f.And(f.Eq(f.SlRef(a), f.SlRef(b)), f.Eq(f.SlOff(a), f.SlOff(b)), f.Eq(f.SlCap(a), f.SlCap(b)), f.Le(f.SlLen(b), f.SlLen(a))), true
